@@ -398,6 +398,7 @@ func runL1TwicePrep(seed uint64, id int, prep func(sc *L1Scenario), build L1Buil
 
 // whalePrep gives user 7 more than 2^66 of every denom, so that an escrow can hold more than 2^64
 func whalePrep(sc *L1Scenario) {
+	// (called by moneyPrep after the denom list is final)
 	var cs sdk.Coins
 	for _, d := range sc.Denoms {
 		cs = append(cs, sdk.NewCoin(d, math.NewIntFromBigInt(new(big.Int).Lsh(big.NewInt(1), 66))))
@@ -422,7 +423,7 @@ func (sc *L1Scenario) fundBig(b uint64) {
 func (sc *L1Scenario) variantStep() {
 	e, r, c := sc.Env, sc.R, sc.Case
 	sub := e.User(uint64(1 + r.Intn(7))).Str
-	switch r.Weighted([]int{50, 35, 15}) {
+	switch r.Weighted([]int{40, 30, 12, 18}) {
 	case 0:
 		var paid []int
 		for i, o := range c.Ops {
@@ -448,6 +449,18 @@ func (sc *L1Scenario) variantStep() {
 		pt := sc.Trees[r.Intn(len(sc.Trees))]
 		op := sc.Claim(pt, r.Intn(len(pt.Tree.Ws)), sub)
 		op.Amt = new(big.Int).Add(op.Amt, new(big.Int).Mul(two64, big.NewInt(int64(1+r.Intn(2)))))
+		c.Do(op)
+	case 3: // a claim of a proposed tree with the denom or the L2 sender string in the other letter case
+		if len(sc.Trees) == 0 {
+			return
+		}
+		pt := sc.Trees[r.Intn(len(sc.Trees))]
+		op := sc.Claim(pt, r.Intn(len(pt.Tree.Ws)), sub)
+		if r.Chance(70) {
+			op.Denom = swapCase(op.Denom)
+		} else {
+			op.From = swapCase(op.From)
+		}
 		c.Do(op)
 	case 2:
 		ex := sc.existingBridges()
@@ -672,5 +685,90 @@ func (sc *L1Scenario) discardStep() {
 	sc.Discarded(sc.Create(creator, cfg), dep)
 	if r.Chance(70) {
 		sc.do(dep) // the bridge does not exist: must be rejected
+	}
+}
+
+func swapCase(s string) string {
+	b := []byte(s)
+	for i, ch := range b {
+		switch {
+		case ch >= 'a' && ch <= 'z':
+			b[i] = ch - 32
+		case ch >= 'A' && ch <= 'Z':
+			b[i] = ch + 32
+		}
+	}
+	return string(b)
+}
+
+// moneyPrep: a denom pair differing only in letter case (uinit / UINIT, both valid) and a whale
+func moneyPrep(sc *L1Scenario) {
+	up := swapCase(sc.Denoms[0])
+	for _, u := range sc.Env.Users {
+		sc.Env.Fund(u.Addr, sdk.NewCoins(sdk.NewInt64Coin(up, 100000)))
+	}
+	sc.Denoms = append(sc.Denoms, up)
+	sc.Case.Track.Denoms = sc.Denoms
+	whalePrep(sc)
+}
+
+// specialLeaves: withdrawals whose recipient is a module account (distribution, gov, minter) or
+// another bridge's escrow address, zero-amount withdrawals, and one in the upper-case twin denom
+func (sc *L1Scenario) specialLeaves(b uint64, firstSeq uint64) []Withdrawal {
+	e, r := sc.Env, sc.R
+	tos := []string{sdk.AccAddress(e.AddrOf(ModDistr)).String(), sdk.AccAddress(e.AddrOf(ModGov)).String(), sdk.AccAddress(e.AddrOf(ModL1Minter)).String(),
+		sdk.AccAddress(e.AddrOf(EscrowBase + b%4 + 1)).String()}
+	var ws []Withdrawal
+	seq := firstSeq
+	for _, to := range tos {
+		ws = append(ws, Withdrawal{Bridge: b, Seq: seq, From: "l2user", To: to, Denom: sc.Denoms[r.Intn(len(sc.Denoms))], Amt: big.NewInt(int64(1 + r.Intn(30)))})
+		seq++
+	}
+	for k := 0; k < 2; k++ {
+		ws = append(ws, Withdrawal{Bridge: b, Seq: seq, From: "l2user", To: e.User(uint64(1 + r.Intn(7))).Str, Denom: sc.Denoms[r.Intn(len(sc.Denoms))], Amt: big.NewInt(0)})
+		seq++
+	}
+	ws = append(ws, Withdrawal{Bridge: b, Seq: seq, From: "L2User", To: e.User(uint64(1 + r.Intn(7))).Str, Denom: sc.Denoms[len(sc.Denoms)-1], Amt: big.NewInt(int64(1 + r.Intn(30)))})
+	seq++
+	// all-lower-case leaves in the lower-case twin denom: the ones a case-folding hash would confuse
+	for k := 0; k < 2; k++ {
+		ws = append(ws, Withdrawal{Bridge: b, Seq: seq, From: "l2user", To: e.User(uint64(1 + r.Intn(7))).Str, Denom: sc.Denoms[0], Amt: big.NewInt(int64(1 + r.Intn(30)))})
+		seq++
+	}
+	return ws
+}
+
+// claimTwice submits leaf i of pt and immediately resubmits it (other submitter)
+func (sc *L1Scenario) claimTwice(pt *ProposedTree, i int, b uint64) {
+	e, r := sc.Env, sc.R
+	sc.ClaimAt(pt, i, b, pt.Idx, e.User(uint64(1+r.Intn(7))).Str)
+	sc.ClaimAt(pt, i, b, pt.Idx, e.User(uint64(1+r.Intn(7))).Str)
+}
+
+// twinDenomClaim submits a leaf of pt whose denom belongs to the lower/upper-case denom pair with
+// the denom in the OTHER letter case (the escrow holds both); falls back to the other-case sender
+func (sc *L1Scenario) twinDenomClaim(pt *ProposedTree, b uint64) {
+	e, r := sc.Env, sc.R
+	lo, up := sc.Denoms[0], swapCase(sc.Denoms[0])
+	var cand []int
+	for i, w := range pt.Tree.Ws {
+		if (w.Denom == lo || (w.Denom == up && r.Chance(25))) && w.Amt.Sign() > 0 {
+			cand = append(cand, i)
+		}
+	}
+	sub := e.User(uint64(1 + r.Intn(7))).Str
+	if len(cand) == 0 {
+		op := sc.Claim(pt, r.Intn(len(pt.Tree.Ws)), sub)
+		op.Bridge, op.Idx = b, pt.Idx
+		op.From = swapCase(op.From)
+		sc.Case.Do(op)
+		return
+	}
+	op := sc.Claim(pt, cand[r.Intn(len(cand))], sub)
+	op.Bridge, op.Idx = b, pt.Idx
+	op.Denom = swapCase(op.Denom)
+	res := sc.Case.Do(op)
+	if os.Getenv("VERIF_DEBUG") != "" {
+		fmt.Println("twin", op.Bridge, op.Idx, op.Denom, op.Amt, res.OK, res.Err)
 	}
 }
